@@ -3,7 +3,7 @@
 // alphabet : key specifications from a pool with prefix-related long keys: short only {a,b}, long only {in,inp,input,out},
 //            and all 8 short/long pairs; written with 0/1/2 leading dashes and in both orders ("a,in" / "--in,-a").
 //            ALL sequences (= sets in every definition order) of <= 3 (quick) / <= 4 (thorough) specifications,
-//            abbreviations enabled and disabled.
+//            abbreviations enabled and disabled; sequences of <= 3 also with every argument defined as a sub-group opener.
 // oracle   : (i) definition: adding a specification is refused iff it shares its short or its long key with an earlier
 //                accepted one (4-line set model), accepted otherwise;
 //            (ii) lookup on the accepted set: every exact key selects its own argument; every proper prefix (>= 2
@@ -25,21 +25,30 @@ static std::string written(const Spec& s, int variant) {
    switch (variant % 3) { case 0: return lk; case 1: return "--" + lk; default: return "-" + lk; }
 }
 
-static void run_sequence(const std::vector<int>& seq, bool abbr, int variant_base, uint64_t case_idx) {
+// sub == true: every argument opens a sub-group (addArgument(spec, subHandler, desc)); each sub-handler has one argument -q
+// writing to the variable of its opener, so "<key> -q 5" shows which opener the key selected.
+static void run_sequence(const std::vector<int>& seq, bool abbr, int variant_base, uint64_t case_idx, bool sub = false) {
    using namespace celma::prog_args;
-   std::ostringstream out, err;
-   Handler h(out, err, abbr ? 0 : Handler::hfNoAbbr);
+   std::ostringstream out, err, so, se;
+   const int flags = abbr ? 0 : Handler::hfNoAbbr; const std::string sfx = sub ? "|subgroup" : "";
+   Handler h(out, err, flags);
+   std::vector<std::unique_ptr<Handler>> subs;
+   auto define = [&](Handler& hh, const std::string& w, int& var, const std::string& vname) {
+      if (!sub) { hh.addArgument(w, destination(var, vname), "desc"); return; }
+      subs.emplace_back(new Handler(so, se, flags)); subs.back()->addArgument("q", destination(var, vname), "desc");
+      hh.addArgument(w, *subs.back(), "desc");
+   };
    std::vector<int> vars(seq.size(), -777); std::vector<int> accepted; std::set<char> shorts; std::set<std::string> longs;
    std::string desc;
    for (size_t i = 0; i < seq.size(); ++i) {
       const Spec& s = POOL[seq[i]]; std::string w = written(s, variant_base + int(i) * 5 + seq[i]);
       bool expect_refuse = (s.sk && shorts.count(s.sk)) || (s.lk[0] && longs.count(s.lk));
       bool refused = false; std::string what;
-      try { h.addArgument(w, destination(vars[i], "v" + std::to_string(i)), "desc"); } catch (const std::exception& e) { refused = true; what = e.what(); }
-      ++g_defs; ++g_evals; desc += "'" + w + "'" + (refused ? "(refused) " : " ");
+      try { define(h, w, vars[i], "v" + std::to_string(i)); } catch (const std::exception& e) { refused = true; what = e.what(); }
+      ++g_defs; ++g_evals; desc += std::string(sub ? "sub-group " : "") + "'" + w + "'" + (refused ? "(refused) " : " ");
       if (vf::verbose()) printf("  define %s -> %s %s\n", w.c_str(), refused ? "refused" : "accepted", what.c_str());
       if (refused != expect_refuse) {
-         vf::violation(std::string(expect_refuse ? "duplicate-accepted" : "distinct-refused") + "|" + (s.sk ? "s" : "") + (s.lk[0] ? "l" : ""), "definitions " + desc + ": specification '" + w + "' " + (refused ? "was refused (" + what + ") although neither its short nor its long key is taken" : "was accepted although its short or long key is already taken"), std::to_string(case_idx));
+         vf::violation(std::string(expect_refuse ? "duplicate-accepted" : "distinct-refused") + "|" + (s.sk ? "s" : "") + (s.lk[0] ? "l" : "") + sfx, "definitions " + desc + ": specification '" + w + "' " + (refused ? "was refused (" + what + ") although neither its short nor its long key is taken" : "was accepted although its short or long key is already taken"), std::to_string(case_idx));
          return;
       }
       if (refused) { ++g_refused; continue; }
@@ -78,14 +87,15 @@ static void run_sequence(const std::vector<int>& seq, bool abbr, int variant_bas
             else { expect = -1; what = "ambiguous abbreviation"; ++g_ambiguous; }
          }
          // fresh handler with the accepted definitions in the same order
-         std::ostringstream o2, e2; Handler h2(o2, e2, abbr ? 0 : Handler::hfNoAbbr); std::vector<int> v2(seq.size(), -777);
-         for (int aj : accepted) h2.addArgument(written(POOL[seq[aj]], variant_base + aj * 5 + seq[aj]), destination(v2[aj], "v" + std::to_string(aj)), "desc");
-         Argv av({pr.first, "5"}); bool threw = false; std::string msg;
+         std::ostringstream o2, e2; Handler h2(o2, e2, flags); std::vector<int> v2(seq.size(), -777);
+         for (int aj : accepted) define(h2, written(POOL[seq[aj]], variant_base + aj * 5 + seq[aj]), v2[aj], "v" + std::to_string(aj));
+         Argv av(sub ? std::vector<std::string>{pr.first, "-q", "5"} : std::vector<std::string>{pr.first, "5"}); bool threw = false; std::string msg;
          try { h2.evalArguments(av.argc(), av.argv()); } catch (const std::exception& e) { threw = true; msg = e.what(); } catch (...) { threw = true; msg = "non-std exception"; }
          ++g_lookups; ++g_evals; vf::heartbeat();
          int got = -1, n = 0; for (size_t i = 0; i < v2.size(); ++i) if (v2[i] == 5) { got = int(i); ++n; }
          if (vf::verbose()) printf("  lookup %s 5 -> %s, variable %d %s\n", pr.first.c_str(), threw ? "throws" : "returns", got, msg.c_str());
-         std::string ctx = "definitions " + desc + (abbr ? "" : "[no-abbr] ") + "line '" + pr.first + " 5'";
+         std::string ctx = "definitions " + desc + (abbr ? "" : "[no-abbr] ") + "line '" + pr.first + (sub ? " -q" : "") + " 5'";
+         what += sfx;
          if (expect < 0) { if (!threw) vf::violation("accepted|" + what, ctx + ": must be rejected (" + what + ") but the value went to argument #" + std::to_string(got), std::to_string(case_idx)); }
          else if (threw) vf::violation("rejected|" + what, ctx + ": " + what + " of argument #" + std::to_string(expect) + " rejected: " + msg, std::to_string(case_idx));
          else if (got != expect || n != 1) vf::violation("wrong-argument|" + what, ctx + ": value went to argument #" + std::to_string(got) + " instead of #" + std::to_string(expect), std::to_string(case_idx));
@@ -107,6 +117,7 @@ int main(int argc, char** argv) {
             std::vector<int> seq; for (int i = 0; i < len; ++i) seq.push_back(int(od[i]));
             int nvar = len <= 2 ? 4 : 1;       // short sequences: every written variant; longer ones: variants rotate with the position
             for (int var = 0; var < nvar; ++var) run_sequence(seq, abbr != 0, var, vf::current_case());
+            if (len <= 3) run_sequence(seq, abbr != 0, 0, vf::current_case(), true);      // the same keys as sub-group openers
             ++seqs; vf::nontrivial_by_construction();
             if (seqs % 997 == 1) { std::string t; for (int x : seq) t += written(POOL[x], 0) + " "; vf::sample("definition order: " + t + (abbr ? "" : "[no-abbr]") + "; lookups: every exact key and every prefix >= 2 characters of every long key"); }
          }
